@@ -50,7 +50,8 @@ SinkOK(i, got) ==
 (* Guards are written "(...) = TRUE": TLC then evaluates them as plain       *)
 (* predicates instead of splitting every disjunction inside them into       *)
 (* successor branches (2^n copies of the same successor state).             *)
-ErrCounted == {"where", "eval", "stateCount", "stateDuration"}
+ErrCounted == {"tap", "where", "eval", "default", "delete", "shift", "sample", "derivative", "changeDetect",
+               "stateCount", "stateDuration", "flatten", "combine", "groupBy"}
 TrEnd ==
     /\ IsEv("End")
     /\ (Ln.stopErr = "") = TRUE             \* no node gave up on this input
@@ -63,8 +64,8 @@ TrEnd ==
        (* after the drain, so a branch that changed shared data shows up    *)
        (* above; in a chain a later change of a delivered message is drift. *)
     /\ (Ln.fork => Ln.stable) = TRUE
-       (* error reports: a point dropped for an evaluation error is reported  *)
-       (* once by its node, never by a quiet eval                             *)
+       (* error reports: every documented error condition is reported once by *)
+       (* its node (never by a quiet eval), nothing else is reported          *)
     /\ (\A i \in DOMAIN nodes : (nodes[i].k \in ErrCounted /\ ~amb[nodes[i].parent + 1]) => Ln.errs[i] = nerrs[i]) = TRUE
     /\ (IF Ln.stable THEN TRUE ELSE PrintT(<<"DRIFT", "message changed after delivery">>)) = TRUE
     /\ (\A k \in kfhit : PrintT(<<"KF-HIT", k>>)) = TRUE
